@@ -434,7 +434,9 @@ Definition flow_is_via (f : name_flow) : bool := match f with ViaMailboxForAddre
 
 (** the premise made concrete by the translator: every use of the URL variable in pkg/rest and
     pkg/webui is the argument of MailboxForAddress, which is ExtractMailbox *)
-Lemma read_sites_all_via : forallb (fun p => flow_is_via (snd p)) read_sites && mailbox_for_address_is_extract = true.
+Lemma read_sites_all_via :
+  forallb (fun p => flow_is_via (snd p)) read_sites && mailbox_for_address_is_extract
+  && negb (Nat.eqb (length read_sites) 0) = true.
 Proof. vm_compute. reflexivity. Qed.
 
 Theorem read_side_same_name parse_ip (parse_ip_lower : forall s, parse_ip (lower s) = parse_ip s) :
@@ -444,7 +446,7 @@ Theorem read_side_same_name parse_ip (parse_ip_lower : forall s, parse_ip (lower
     read_name parse_ip mode flow (r_mailbox r) = Some (r_mailbox r).
 Proof.
   intros site flow Hin mode a r R.
-  pose proof read_sites_all_via as A. apply andb_true_iff in A as [A _]. rewrite forallb_forall in A.
+  pose proof read_sites_all_via as A. apply andb_true_iff in A as [A _]. apply andb_true_iff in A as [A _]. rewrite forallb_forall in A.
   specialize (A _ Hin). simpl in A. destruct flow; [|discriminate]. cbn [read_name]. split.
   - eapply name_of_address; exact R.
   - eapply name_fixed_point; eassumption.
